@@ -187,6 +187,11 @@ func runC01(cfg *config) *Report {
 			seen[c.rd] = true
 			ops = append(ops, "canonfile\t"+c.rd)
 			want = append(want, true)
+			if !strings.Contains(c.rd, "~VT|") && c.note == "text" {
+				// a file without record 52, of text: the hypothesis of the EBCDIC theorems as well
+				ops = append(ops, "canonfilee\t"+c.rd)
+				want = append(want, true)
+			}
 			if sp := spoilDump(c.rd, len(ops)); sp != "" {
 				ops = append(ops, "canonfile\t"+sp)
 				want = append(want, false)
@@ -200,6 +205,9 @@ func runC01(cfg *config) *Report {
 					why = why[:48]
 				}
 				if want[j] {
+					if strings.HasPrefix(ops[j], "canonfilee") {
+						why = "E:" + why
+					}
 					rep.count("theorem-hypothesis-CanonFile:" + why)
 					if g != "ok" && len(rep.Notes) < 6 {
 						rep.Notes = append(rep.Notes, "CanonFile hypothesis not met by a file the implementation round-trips: "+g)
